@@ -550,6 +550,16 @@ func checkB7(c *Ctx, pr *prioRoles) {
 				if cm.Op == token.EQL && ((diff(l) && r.V == ssa.Value(dividend)) || (diff(r) && l.V == ssa.Value(dividend))) {
 					return true
 				}
+				// after == before + dividend (the same test, also under unsigned wrap-around)
+				sum := func(x *Sym) bool {
+					if x.Op != "bin" || x.Name != "+" {
+						return false
+					}
+					return (isEx(x.Args[0], before) && x.Args[1].V == ssa.Value(dividend)) || (isEx(x.Args[1], before) && x.Args[0].V == ssa.Value(dividend))
+				}
+				if cm.Op == token.EQL && ((isEx(l, after) && sum(r)) || (isEx(r, after) && sum(l))) {
+					return true
+				}
 				return false
 			})
 			if !okRet {
